@@ -41,17 +41,40 @@ inline void on_alarm(int)
     _exit(3);
 }
 
-// ---- exact-size, unterminated input blocks: any read past the range hits an ASan redzone
+// ---- exact-size, unterminated input blocks: any read past the range hits an ASan redzone.
+// Blocks are RECYCLED by exact byte size instead of being returned to the allocator (the sanitizer would keep a freed
+// block in quarantine, so no address would ever recur): the arguments of consecutive cases with operands of the same
+// length therefore sit at the SAME address with different content — what a cache keyed by pointer and length
+// (a remembered needle, delimiter set, table) would mistake for "the same argument as last time".
+// (a fixed table, no STL container: the memory harness counts and faults operator new)
+struct BlockSlot { size_t bytes; void *p; };
+inline BlockSlot *block_slots() { static BlockSlot s[256]; return s; }
+inline void *block_get(size_t bytes)
+{
+    BlockSlot *s = block_slots();
+    for (int i = 0; i < 256; ++i)
+        if (s[i].p && s[i].bytes == bytes) { void *q = s[i].p; s[i].p = nullptr; return q; }
+    return malloc(bytes);
+}
+inline void block_put(void *q, size_t bytes)
+{
+    BlockSlot *s = block_slots();
+    if (bytes <= (1u << 20))
+        for (int i = 0; i < 256; ++i)
+            if (!s[i].p) { s[i].p = q; s[i].bytes = bytes; return; }
+    free(q);
+}
 template <class T>
 struct Block {
     T *p = nullptr;
     size_t n = 0;
     bool null = false;
+    size_t bytes = 0;
     Block() {}
     Block(const Block &) = delete;
     Block &operator=(const Block &) = delete;
-    Block(Block &&o) : p(o.p), n(o.n), null(o.null) { o.p = nullptr; }
-    ~Block() { free(p); }
+    Block(Block &&o) : p(o.p), n(o.n), null(o.null), bytes(o.bytes) { o.p = nullptr; }
+    ~Block() { if (p) block_put(p, bytes); }
     const T *data() const { return null ? nullptr : p; }
     size_t size() const { return n; }
 };
@@ -75,7 +98,8 @@ Block<T> units(const std::string &tok, size_t extra = 0)
     size_t n = (tok == ".") ? 0 : tok.size() / w;
     b.n = n;
     // malloc(0) may return a unique pointer: keep at least the exact byte count, never more
-    b.p = static_cast<T *>(malloc((n + extra) * sizeof(T) ? (n + extra) * sizeof(T) : 1));
+    b.bytes = (n + extra) * sizeof(T) ? (n + extra) * sizeof(T) : 1;
+    b.p = static_cast<T *>(block_get(b.bytes));
     for (size_t i = 0; i < n; ++i) {
         uint64_t v = 0;
         for (size_t k = 0; k < w; ++k) v = (v << 4) | hexv(tok[i * w + k]);
@@ -127,6 +151,27 @@ inline std::vector<std::string> split_ws(const std::string &line)
     return v;
 }
 
+// ---- decoy pass (opt-in per harness): before a case runs, the same operation runs once on a DECOY input of the same
+// shape — every argument that is a string of hex byte pairs with each ASCII letter / digit byte replaced by its
+// neighbour — and its result is discarded.  Because input blocks are recycled by size, the real arguments then sit at
+// the addresses the decoy's had, with different content: state that survives from one call to the next (a remembered
+// needle, separator, delimiter table, ...) makes the real call go wrong.
+static bool g_decoy = false;
+inline std::string decoy_token(const std::string &t)
+{
+    if (t.size() < 4 || t.size() % 2) return t;
+    for (char c : t) if (!isxdigit(static_cast<unsigned char>(c))) return t;
+    static const char *d = "0123456789abcdef";
+    std::string r = t;
+    for (size_t i = 0; i + 1 < t.size(); i += 2) {
+        int v = hexv(t[i]) * 16 + hexv(t[i + 1]), w = v;
+        if ((v >= 'a' && v < 'z') || (v >= 'A' && v < 'Z') || (v >= '0' && v < '9')) w = v + 1;
+        else if (v == 'z' || v == 'Z' || v == '9') w = v - 1;
+        r[i] = d[w >> 4]; r[i + 1] = d[w & 15];
+    }
+    return r;
+}
+
 // main loop: argv[1] = case file, argv[2] = index of first line to run (default 0)
 inline int run_main(int argc, char **argv, const Dispatch &dispatch)
 {
@@ -149,6 +194,11 @@ inline int run_main(int argc, char **argv, const Dispatch &dispatch)
         Args a(tok.begin() + 2, tok.end());
         std::string out;
         alarm(g_case_timeout);
+        if (g_decoy && tok[1].find("enum") == std::string::npos && tok[1].find("digest") == std::string::npos) {
+            Args dcy;
+            for (const std::string &t : a) dcy.push_back(decoy_token(t));
+            if (dcy != a) { try { (void)dispatch(tok[1], dcy); } catch (...) { } }
+        }
         try {
             out = "OK " + dispatch(tok[1], a);
         } catch (const ST::unicode_error &) {
